@@ -35,7 +35,7 @@ def devsets(K):
 
 
 def xb(v):
-    return any(a["rule"] in ("xmin", "xmax") for a in v["pa"] + v["ra"])
+    return any(a["rule"] in ("xmin", "xmax", "xrange") for a in v["pa"] + v["ra"])
 
 
 def kin_blind(v):
@@ -210,7 +210,7 @@ def run(ctx):
     shapes, keep = set(), []
     for it in unexplained:            # cost is per method shape (one design each): bound the shapes, not the exchanges
         k = hg.shape_key(it[2]["v"])
-        if k in shapes or len(shapes) < (30 if quick else 400):
+        if k in shapes or len(shapes) < (80 if quick else 600):
             shapes.add(k)
             keep.append(it)
     unexplained = keep + [it for it in unexplained if hg.shape_key(it[2]["v"]) not in shapes]
